@@ -113,9 +113,7 @@ func vfE3Start(id string) *vfE3Node {
 		opts.SnappyEnabled = true
 		opts.MaxReqTimeout = time.Duration(9223372036854775807)
 	}
-	opts.TCPAddress = "127.0.0.1:0"
-	opts.HTTPAddress = "127.0.0.1:0"
-	opts.HTTPSAddress = "127.0.0.1:0"
+	opts.TCPAddress, opts.HTTPAddress, opts.HTTPSAddress = vfLoop3()
 	n, err := New(opts)
 	if err != nil {
 		panic(err)
